@@ -58,3 +58,18 @@ Proof.
   transitivity (zq a * zq b' / (zq b * zq b')); [field; split; assumption|].
   rewrite H. field. split; assumption.
 Qed.
+
+(* equality of two quotients of integers with positive denominators is cross-multiplied equality *)
+Lemma Qc_eq_bool_frac (a b c d : Z) : (0 < b)%Z -> (0 < d)%Z ->
+  Qc_eq_bool (zq a / zq b) (zq c / zq d) = (a * d =? c * b)%Z.
+Proof.
+  intros Hb Hd. assert (Nb : zq b <> Q2Qc 0) by (apply zq_neq0; lia).
+  assert (Nd : zq d <> Q2Qc 0) by (apply zq_neq0; lia).
+  destruct (a * d =? c * b)%Z eqn:E.
+  - apply Z.eqb_eq in E. rewrite (zq_frac_eq a b c d) by (try lia; exact E).
+    unfold Qc_eq_bool. destruct (Qc_eq_dec _ _); congruence.
+  - apply Z.eqb_neq in E. unfold Qc_eq_bool. destruct (Qc_eq_dec _ _) as [H|H]; [|reflexivity].
+    exfalso. apply E. apply zq_inj. rewrite !zq_mul.
+    transitivity (zq a / zq b * (zq b * zq d)); [field; exact Nb|].
+    rewrite H. field. exact Nd.
+Qed.
